@@ -122,6 +122,98 @@ def extra_catalog():
     return out
 
 
+def siblings(name):
+    """Other CONFIGURATIONS of the same environment class. Building and using them in the same process must not
+    influence a fresh instance of the configuration under test (no cache keyed by part of the configuration)."""
+    import jumanji.environments as E
+
+    base = name.split(".")[0]
+    out = []
+    try:
+        if base == "RobotWarehouse":
+            from jumanji.environments.routing.robot_warehouse.generator import RandomGenerator as RG
+
+            # same grid size as the default (2 rows x 3 columns x height 8), different floor plans
+            out = [lambda: E.RobotWarehouse(generator=RG(shelf_rows=1, shelf_columns=3, column_height=17, num_agents=4, sensor_range=1, request_queue_size=8), time_limit=3),
+                   lambda: E.RobotWarehouse(generator=RG(shelf_rows=3, shelf_columns=3, column_height=5, num_agents=4, sensor_range=1, request_queue_size=8), time_limit=3),
+                   lambda: E.RobotWarehouse(generator=RG(shelf_rows=2, shelf_columns=3, column_height=8, num_agents=2, sensor_range=1, request_queue_size=4), time_limit=3)]
+        elif base == "Snake":
+            out = [lambda: E.Snake(num_rows=5, num_cols=4, time_limit=3), lambda: E.Snake(num_rows=4, num_cols=5, time_limit=9)]
+        elif base == "Tetris":
+            out = [lambda: E.Tetris(num_rows=8, num_cols=12, time_limit=3), lambda: E.Tetris(num_rows=10, num_cols=10, time_limit=5)]
+        elif base == "Game2048":
+            out = [lambda: E.Game2048(board_size=3)]
+        elif base == "Maze":
+            from jumanji.environments.routing.maze.generator import RandomGenerator as MG
+
+            out = [lambda: E.Maze(generator=MG(num_rows=10, num_cols=10), time_limit=5), lambda: E.Maze(generator=MG(num_rows=6, num_cols=10))]
+        elif base == "Cleaner":
+            from jumanji.environments.routing.cleaner.generator import RandomGenerator as CG
+
+            out = [lambda: E.Cleaner(generator=CG(num_rows=10, num_cols=10, num_agents=2), time_limit=3)]
+        elif base == "Connector":
+            from jumanji.environments.routing.connector.generator import RandomWalkGenerator as WG
+
+            out = [lambda: E.Connector(generator=WG(grid_size=10, num_agents=5), time_limit=3)]
+        elif base == "Minesweeper":
+            from jumanji.environments.logic.minesweeper.generator import UniformSamplingGenerator as UG
+
+            out = [lambda: E.Minesweeper(generator=UG(num_rows=10, num_cols=10, num_mines=20))]
+        elif base == "SlidingTilePuzzle":
+            from jumanji.environments.logic.sliding_tile_puzzle.generator import RandomWalkGenerator as SG
+
+            out = [lambda: E.SlidingTilePuzzle(generator=SG(grid_size=5, num_random_moves=10), time_limit=3)]
+        elif base == "LevelBasedForaging":
+            from jumanji.environments.routing.lbf.generator import RandomGenerator as LG
+
+            out = [lambda: E.LevelBasedForaging(generator=LG(grid_size=8, fov=8, num_agents=2, num_food=3), time_limit=3)]
+        elif base == "JobShop":
+            from jumanji.environments.packing.job_shop.generator import RandomGenerator as JG
+
+            out = [lambda: E.JobShop(generator=JG(num_jobs=20, num_machines=10, max_num_ops=8, max_op_duration=3))]
+        elif base == "Knapsack":
+            from jumanji.environments.packing.knapsack.generator import RandomGenerator as KG
+
+            out = [lambda: E.Knapsack(generator=KG(num_items=50, total_budget=5.0))]
+    except Exception:  # noqa: BLE001
+        out = []
+    return out
+
+
+def sibling_rollout_digest(env, seed):
+    """Exact digest of reset(K2) + 3 fixed steps (same jitted programs, same inputs: bit-reproducible)."""
+    import jax
+    import jax.numpy as jnp
+
+    rng = np.random.default_rng(seed + 99)
+    st, ts = jax.jit(env.reset)(jax.random.PRNGKey(seed * 3 + 2))
+    outs = [to_np((st, ts))]
+    step = jax.jit(env.step)
+    for _ in range(3):
+        st, ts = step(st, jnp.asarray(catalog.random_action(env, rng)))
+        outs.append(to_np((st, ts)))
+    return jsonify.digest(outs)
+
+
+def sibling_digest_in_clean_process(name, si, seed):
+    import os
+    import subprocess
+
+    from harness.common import PY, VERIF
+
+    env = dict(os.environ)
+    env["PYTHONPATH"] = (os.environ.get("VERIF_REPO", "") + os.pathsep if os.environ.get("VERIF_REPO") else "") + VERIF
+    try:
+        p = subprocess.run([PY, "-W", "ignore", "-m", "harness.lib.pure_drive", "--sibling", name, str(si), str(seed)],
+                           capture_output=True, text=True, env=env, cwd=VERIF, timeout=900)
+        for ln in reversed(p.stdout.strip().splitlines()):
+            if ln.startswith("SIBLING_DIGEST "):
+                return ln.split()[1]
+    except Exception:  # noqa: BLE001
+        return None
+    return None
+
+
 class Memo:
     def __init__(self):
         self.classes = {}   # (fn, args_d) -> list of representative results
@@ -151,14 +243,23 @@ def drive_env(name, tier, seed):
     def call(fn, mode, f, args, lane=None, note=""):
         """f(*args) -> result pytree; logs one event (or one per lane / scan index via explicit calls)."""
         seq[0] += 1
-        before = jsonify.digest(to_np(args))
+        try:
+            before = jsonify.digest(to_np(args))
+        except Exception as e:  # noqa: BLE001  (an argument made unusable by an EARLIER call, e.g. a donated buffer)
+            evs.append({"k": "call", "env": name, "fn": fn, "mode": mode, "seq": seq[0], "args_d": "unusable",
+                        "args_after_d": "unusable", "outcome": "raise:ArgumentUnusable", "note": note,
+                        "detail": type(e).__name__ + ":" + str(e)[:160], "cls": -1, "result_d": "none"})
+            return None
         try:
             res = f(*args)
             res = to_np(res)
             oc = "ok"
         except Exception as e:  # noqa: BLE001
             res, oc = None, "raise:" + type(e).__name__ + ":" + str(e)[:120]
-        after = jsonify.digest(to_np(args))
+        try:
+            after = jsonify.digest(to_np(args))
+        except Exception as e:  # noqa: BLE001  (the call deleted / donated one of its arguments)
+            after = "destroyed:" + type(e).__name__
         ev = {"k": "call", "env": name, "fn": fn, "mode": mode, "seq": seq[0], "args_d": before, "args_after_d": after,
               "outcome": oc if oc == "ok" else oc.split(":")[0] + ":" + oc.split(":")[1], "note": note,
               "detail": "" if oc == "ok" else oc}
@@ -241,6 +342,30 @@ def drive_env(name, tier, seed):
             evs.append({"k": "call", "env": name, "fn": "reset", "mode": f"vmap{B}", "seq": seq[0], "args_d": "x", "args_after_d": "x",
                         "outcome": "raise:" + type(e).__name__, "note": "", "detail": str(e)[:200], "cls": -1, "result_d": "none"})
 
+    # ---- other configurations of the same class built and used in between ----
+    sibs = siblings(name) if "." not in name else []
+    for si, mk_sib in enumerate(sibs):
+        try:
+            es = mk_sib()
+            s_sib, t_sib = jax.jit(es.reset)(K2)
+            jax.jit(es.step)(s_sib, jnp.asarray(catalog.random_action(es, rng)))
+        except Exception:  # noqa: BLE001   (a sibling that cannot be built is simply skipped)
+            continue
+        env_after = mk()
+        call("reset", "fresh_instance_after_other_config", jax.jit(env_after.reset), (K1,), note=f"sibling {si}")
+        # ... and the other way round: the sibling, built here AFTER the configuration under test, must behave exactly
+        # as it does when it is the only environment ever built in a process (computed in a clean child process)
+        clean = sibling_digest_in_clean_process(name, si, seed)
+        if clean is not None:
+            seq[0] += 1
+            evs.append({"k": "call", "env": name, "fn": f"sibling{si}.rollout", "mode": "clean_process", "seq": seq[0],
+                        "args_d": "K2", "args_after_d": "K2", "outcome": "ok", "note": "", "detail": "",
+                        "cls": memo.cls(f"sibling{si}.rollout", "K2", clean), "result_d": clean})
+            here = sibling_rollout_digest(es, seed)
+            seq[0] += 1
+            evs.append({"k": "call", "env": name, "fn": f"sibling{si}.rollout", "mode": "after_other_config", "seq": seq[0],
+                        "args_d": "K2", "args_after_d": "K2", "outcome": "ok", "note": "", "detail": "",
+                        "cls": memo.cls(f"sibling{si}.rollout", "K2", here), "result_d": here})
     # ---- step: rollout, then replay the same (state, action) pairs in other modes and orders ----
     state, ts = jreset(K1)
     pairs = []
@@ -258,10 +383,6 @@ def drive_env(name, tier, seed):
     jstep_b = jax.jit(env_b.step)
     for (s, a) in pairs[:4]:
         call("step", "fresh_instance_jit", jstep_b, (s, a))
-    if eager_ok:
-        for (s, a) in pairs[:(2 if eager_many else 1)]:
-            call("step", "eager", env.step, (s, a))
-            call("step", "jit", jstep, (s, a), note="jit after eager on the same argument objects")
     # vmap over the visited pairs
     if pairs:
         B = min(len(pairs), 4 if tier == "quick" else 8)
@@ -290,6 +411,23 @@ def drive_env(name, tier, seed):
             seq[0] += 1
             evs.append({"k": "call", "env": name, "fn": "step", "mode": "scan", "seq": seq[0], "args_d": "x", "args_after_d": "x",
                         "outcome": "raise:" + type(e).__name__, "note": "", "detail": str(e)[:200], "cls": -1, "result_d": "none"})
+    # plain-Python execution LAST: a call that destroys its arguments (in-place mutation, donated buffers) must not stop
+    # the driver; re-using the same argument objects afterwards exposes it
+    if eager_ok:
+        for (s, a) in pairs[:(2 if eager_many else 1)]:
+            call("step", "eager", env.step, (s, a))
+            call("step", "jit", jstep, (s, a), note="jit after eager on the same argument objects")
+        if pairs:
+            try:
+                bs1 = jax.tree_util.tree_map(lambda x: jnp.stack([x, x]), pairs[-1][0])
+                ba1 = jnp.stack([pairs[-1][1], pairs[-1][1]])
+                call("step", "eager_vmap", jax.vmap(env.step), (bs1, ba1))
+                call("step", "eager_vmap", jax.vmap(env.step), (bs1, ba1), note="repeat on the same batch")
+            except Exception as e:  # noqa: BLE001
+                seq[0] += 1
+                evs.append({"k": "call", "env": name, "fn": "step", "mode": "eager_vmap", "seq": seq[0], "args_d": "unusable",
+                            "args_after_d": "unusable", "outcome": "raise:ArgumentUnusable", "note": "stacking the visited state",
+                            "detail": type(e).__name__, "cls": -1, "result_d": "none"})
     # the generator object, if any, must itself be a pure callable (called directly after all of the above)
     gen = getattr(env, "generator", None) or getattr(env, "_generator", None)
     if gen is not None and callable(gen):
@@ -302,6 +440,13 @@ def drive_env(name, tier, seed):
 
 
 def main():
+    if sys.argv[1] == "--sibling":
+        from harness.common import setup_env
+
+        setup_env()
+        name, si, seed = sys.argv[2], int(sys.argv[3]), int(sys.argv[4])
+        print("SIBLING_DIGEST " + sibling_rollout_digest(siblings(name)[si](), seed))
+        return
     name, tier, seed, out = sys.argv[1:5]
     from harness.common import setup_env
 
